@@ -25,7 +25,7 @@ namespace occa {
 
     void dontUseRefs();
     void addMemoryRef(memory *mem);
-    void removeMemoryRef(memory *mem);
+    bool removeMemoryRef(memory *mem);
     void removeModeMemoryRef();
     bool needsFree() const;
 
